@@ -120,7 +120,7 @@ def _safe_call(c: ast.Call) -> bool:
 
 
 def rule_atom(ctx: Ctx) -> RuleResult:
-    rr = RuleResult("ATOM-1/2", "one writer; the output file is opened only after everything that can fail", floor=4)
+    rr = RuleResult("ATOM-1/2", "one writer; the output file is opened only after everything that can fail", floor=3)
     cone = ctx.cli_cone
     muts = file_mutations(ctx, cone)
     main = ctx.prog.func("json_to_models/cli.py", "main")
@@ -317,7 +317,7 @@ def _handler_swallows(h: ast.ExceptHandler) -> bool:
 
 
 def rule_exc1(ctx: Ctx) -> RuleResult:
-    rr = RuleResult("EXC-1", "no handler on a CLI path swallows a failure of loading, generation or output", floor=7)
+    rr = RuleResult("EXC-1", "no handler on a CLI path swallows a failure of loading, generation or output", floor=4)
     critical = set()
     for rel, q in CRITICAL:
         critical.add(ctx.prog.func(rel, q))
@@ -492,7 +492,7 @@ def rule_out1(ctx: Ctx) -> RuleResult:
 
 def rule_load1(ctx: Ctx) -> RuleResult:
     """Sibling agreement of the input loaders: each opens its path argument itself on every path to a return."""
-    rr = RuleResult("LOAD-1", "every input loader opens the file it is given (a missing file raises)", floor=3)
+    rr = RuleResult("LOAD-1", "every input loader opens the file it is given (a missing file raises)", floor=2)
     loaders = ctx.prog.cls("json_to_models/cli.py", "FileLoaders")
     for name, ms in sorted(loaders.methods.items()):
         for f in ms:
